@@ -52,6 +52,7 @@ type Ctx struct {
 	extraSeen   map[string]bool
 
 	constGlobals map[string]*T
+	opaque       map[string]*opaqueInfo // opaque spec functions: declaration and definitional axiom
 	allFuncs     map[*ssa.Function]bool
 }
 
